@@ -88,6 +88,7 @@ func (x *ctx) callValue(st *state, fr *frame, fnv val, args []val, c *ssa.CallCo
 		return x.unknownCall(st, fr, fnv, args, c, rt)
 	}
 	callee := fnv.fn
+	x.lastInst = fnv.fn
 	if o := callee.Origin(); o != nil {
 		callee = o
 	}
@@ -614,10 +615,9 @@ func (x *ctx) applyClosure(st *state, cv val, names []string, env envFn) val {
 	return x.evalSpecFn(st, cv.fn, cv.bind, x.bindArgs(cv.fn, names, env))
 }
 
-// evalEnsures evaluates a 3-level clause: entry state, linearization-point state (or entry), exit state.
-func (x *ctx) evalEnsures(con *Contract, cl *Clause, pre, lp, post *state, env envFn, renv envFn) string {
-	n0 := len(pre.pc)
-	l1 := x.clauseL1(pre, con, cl, env)
+// evalEnsures evaluates a 4-level clause: entry state, linearization point (start and end of the critical section;
+// the exit state when there was none), exit state.
+func (x *ctx) evalEnsures(con *Contract, cl *Clause, pre, lp, lpend, post *state, env envFn, renv envFn) string {
 	copyDefs := func(from *state, start int, to *state) {
 		if from == to {
 			return
@@ -628,8 +628,10 @@ func (x *ctx) evalEnsures(con *Contract, cl *Clause, pre, lp, post *state, env e
 			}
 		}
 	}
-	// cells created at level 1 must be visible in later states
 	carry := func(from, to *state) {
+		if from == to {
+			return
+		}
 		for id, v := range from.cells {
 			if _, ok := to.cells[id]; !ok {
 				to.cells[id] = v
@@ -639,18 +641,28 @@ func (x *ctx) evalEnsures(con *Contract, cl *Clause, pre, lp, post *state, env e
 	if lp == nil {
 		lp = post
 	}
-	carry(pre, lp)
-	copyDefs(pre, n0, lp)
-	if lp != post {
-		copyDefs(pre, n0, post)
+	if lpend == nil {
+		lpend = post
 	}
-	n1 := len(lp.pc)
-	l2 := x.applyClosure(lp, l1, nil, env)
-	carry(lp, post)
-	carry(pre, post)
-	copyDefs(lp, n1, post)
-	r := x.applyClosure(post, l2, cl.P3, renv)
-	return r.t.s
+	chain := []*state{pre, lp, lpend, post}
+	n0 := len(pre.pc)
+	cur := x.clauseL1(pre, con, cl, env)
+	for i := 0; i < 3; i++ {
+		from, to := chain[i], chain[i+1]
+		start := n0
+		carry(from, to)
+		for _, later := range chain[i+1:] {
+			carry(from, later)
+			copyDefs(from, start, later)
+		}
+		n0 = len(to.pc)
+		if i < 2 {
+			cur = x.applyClosure(to, cur, nil, env)
+		} else {
+			cur = x.applyClosure(to, cur, cl.P3, renv)
+		}
+	}
+	return cur.t.s
 }
 
 // ---------------------------------------------------------------- contracts at call sites
@@ -678,6 +690,49 @@ func (x *ctx) contractCall(st *state, fr *frame, con *Contract, callee *ssa.Func
 	if con.Flags["assumed"] {
 		x.assumed["assumed contract: "+con.Key()] = true
 	}
+	// pure calls (no modifies, scalar result): the same call in the same heap yields the same result term
+	pureKey := ""
+	if len(con.Mods) == 0 && !con.Flags["fresh"] && !con.Flags["counted"] && !con.Flags["may-panic"] && rt != nil {
+		okKey := true
+		var b strings.Builder
+		b.WriteString("call:" + con.Key())
+		for _, a := range args {
+			var ts []term
+			flattenPlain(a, &ts, &okKey)
+			for _, t := range ts {
+				b.WriteString("|" + t.s)
+			}
+		}
+		if okKey {
+			pureKey = b.String()
+			for _, m := range x.memo[pureKey] {
+				match := true
+				for k, name := range m.reads {
+					cur, ok := st.heap[k]
+					if !ok {
+						cur = x.initialName(k)
+					}
+					if cur != name {
+						match = false
+						break
+					}
+				}
+				if match && x.spec == 0 {
+					// the preconditions are still checked at this call site; only the result term is shared
+					for _, cl := range con.Requires {
+						g := x.clauseL1(st, con, cl, env)
+						x.oblige(st, "call-requires", cl.Tag(), site, g.t.s, "")
+						st.assume(g.t.s)
+					}
+					for _, d := range m.defs {
+						st.define(d)
+					}
+					return []outcome{{st: st, ret: m.v}}
+				}
+			}
+			x.readLog = append(x.readLog, map[string]string{})
+		}
+	}
 	// requires
 	for _, cl := range con.Requires {
 		g := x.clauseL1(st, con, cl, env)
@@ -685,6 +740,18 @@ func (x *ctx) contractCall(st *state, fr *frame, con *Contract, callee *ssa.Func
 			x.oblige(st, "call-requires", cl.Tag(), site, g.t.s, "")
 		}
 		st.assume(g.t.s)
+	}
+	pcStart := len(st.pc)
+	if con.Flags["counted"] && x.spec == 0 {
+		// ghost log of calls of this function: number of calls and the scalar arguments of the last call
+		short := con.Obj.Name()
+		cnt := x.ghostGet(st, "ghost_calls_"+short, nil, bvSort(64), nil)
+		x.ghostWrite(st, "ghost_calls_"+short, nil, x.binop(token.ADD, cnt, mkbv(1, 64), types.Typ[types.Int]))
+		for i, a := range args {
+			if a.t.s != "" && i < len(con.Params) {
+				x.ghostWrite(st, "ghost_last_"+short+"_"+con.Params[i], nil, a.t)
+			}
+		}
 	}
 	pre := st.clone()
 	// level-1 closures are evaluated in the pre-state
@@ -733,7 +800,8 @@ func (x *ctx) contractCall(st *state, fr *frame, con *Contract, callee *ssa.Func
 	}
 	for _, p := range pends {
 		l2 := x.applyClosure(st, p.l1, nil, env)
-		r := x.applyClosure(st, l2, p.cl.P3, renv)
+		l3 := x.applyClosure(st, l2, nil, env)
+		r := x.applyClosure(st, l3, p.cl.P3, renv)
 		st.assume(r.t.s)
 	}
 	if con.Flags["fresh"] && ret.t.s != "" && ret.t.srt == sRef {
@@ -745,6 +813,18 @@ func (x *ctx) contractCall(st *state, fr *frame, con *Contract, callee *ssa.Func
 				seenT[v.t.s] = true
 				st.define(not(eq(ret.t, v.t)))
 			}
+		}
+	}
+	if pureKey != "" {
+		reads := x.readLog[len(x.readLog)-1]
+		x.readLog = x.readLog[:len(x.readLog)-1]
+		x.noteReads(reads)
+		if x.spec == 0 {
+			var defs []string
+			for _, f := range st.pc[pcStart:] {
+				defs = append(defs, f.t)
+			}
+			x.memo[pureKey] = append(x.memo[pureKey], memoEntry{v: ret, defs: defs, reads: reads})
 		}
 	}
 	outs := []outcome{{st: st, ret: ret}}
@@ -772,6 +852,20 @@ func (x *ctx) applyModifies(st, pre *state, con *Contract, mods []*ModItem, env 
 		case "ghostall":
 			x.havocKey(st, x.ghostKey(mi.Ghost))
 		case "ghost":
+			if strings.HasPrefix(mi.Ghost, "ghost_calls_") {
+				// the argument / result log of the same callback changes with its call counter
+				short := strings.TrimPrefix(mi.Ghost, "ghost_calls_")
+				var ks []string
+				for k := range x.hinfo {
+					if strings.HasPrefix(k, "G:arg_"+short+"_") || k == "G:ret_"+short || strings.HasPrefix(k, "G:ret_"+short+"_") || strings.HasPrefix(k, "G:last_"+short+"_") {
+						ks = append(ks, k)
+					}
+				}
+				sort.Strings(ks)
+				for _, k := range ks {
+					x.havocKey(st, k)
+				}
+			}
 			var idx []term
 			for _, fnm := range mi.ArgFns {
 				f := x.synth(con, fnm)
@@ -993,6 +1087,7 @@ func (x *ctx) callbackCall(st *state, fr *frame, cb *cbRef, args []val, rt types
 	}
 	for _, p := range pends {
 		l2 := x.applyClosure(st, p.l1, nil, cenv(p.cl))
+		l2 = x.applyClosure(st, l2, nil, cenv(p.cl))
 		r := x.applyClosure(st, l2, p.cl.P3, func(name string, t types.Type) (val, bool) {
 			if name == "cbr0" {
 				return ret, true
@@ -1252,8 +1347,18 @@ func (x *ctx) contractMods(con *Contract, mods []*ModItem, ms *modSet) {
 			} else {
 				ms.keys[mi.Type+"."+mi.Field] = true
 			}
+		case "resultfield":
+			ms.keys["G:"+mi.Field] = true
 		case "ghost", "ghostall":
 			ms.keys[x.ghostKey(mi.Ghost)] = true
+			if strings.HasPrefix(mi.Ghost, "ghost_calls_") {
+				short := strings.TrimPrefix(mi.Ghost, "ghost_calls_")
+				for k := range x.hinfo {
+					if strings.HasPrefix(k, "G:arg_"+short+"_") || k == "G:ret_"+short || strings.HasPrefix(k, "G:ret_"+short+"_") || strings.HasPrefix(k, "G:last_"+short+"_") {
+						ms.keys[k] = true
+					}
+				}
+			}
 		case "field":
 			f := x.synth(con, mi.ArgFns[0])
 			bt := x.modBaseType(f)
